@@ -145,14 +145,19 @@ Section Transforms.
     let newfirst := gemv (- n1) nonl tra n1 first in
     let newzeroth := j - dot tra (vadd newfirst first) in
     SGeneralQuadric abc def (vscale n2 newfirst) newzeroth.
-  Definition translate_sq (tra abc def : vec) (g : T) : surface T :=
+  (** [fixed = false] is the code as it stands: the constant term subtracts
+      2 * first[i] * origin[i]; f(x - t) requires first[i] * origin[i]
+      ([fixed = true], see translate_sq_refuted / finding in NOTES.md) *)
+  Definition translate_sq_gen (fixed : bool) (tra abc def : vec) (g : T) : surface T :=
     let step (i : axis) (acc : vec * T) :=
       let '(first, zeroth) := acc in
       (vset i (vget i first - n2 * vget i abc * vget i tra) first,
-       zeroth + (vget i abc * (vget i tra * vget i tra) - n2 * vget i def * vget i tra)) in
+       zeroth + (vget i abc * (vget i tra * vget i tra)
+                 - (if fixed then vget i def * vget i tra else n2 * vget i def * vget i tra))) in
     let '(first, zeroth) := step AZ (step AY (step AX (def, g))) in
     SSimpleQuadric abc first zeroth.
-  Definition translate_surface (tra : vec) (s : surface T) : surface T :=
+  Definition translate_sq := translate_sq_gen false.
+  Definition translate_surface_gen (fixed : bool) (tra : vec) (s : surface T) : surface T :=
     match s with
     | SPlaneAligned t p => SPlaneAligned t (p + vget t tra)
     | SCylCentered t r =>
@@ -165,9 +170,11 @@ Section Transforms.
     | SPlane n d => SPlane n (d + dot tra n)
     | SSphere o r => SSphere (tr_up tra o) r
     | SConeAligned t o tsq => SConeAligned t (tr_up tra o) tsq
-    | SSimpleQuadric abc def g => translate_sq tra abc def g
+    | SSimpleQuadric abc def g => translate_sq_gen fixed tra abc def g
     | SGeneralQuadric abc def ghi j => translate_gq tra abc def ghi j
     end.
+  (** the translator as coded today *)
+  Definition translate_surface := translate_surface_gen false.
 
   (** ** SurfaceTransformer *)
   (** 4x4 matrices as functions of indices 0..3 *)
